@@ -122,3 +122,21 @@ Example C06_write_would_change_buffer :
   s_buf (exec [OSeek 0; OWrite [7%N]] (mkStream [1%N; 2%N] 2)) <> [1%N; 2%N].
 Proof. exact write_changes_buffer. Qed.
 Print Assumptions C06_write_would_change_buffer.
+
+(* ---- process history ------------------------------------------------------------------------- *)
+(* if nothing that ran before (imports of other extractors, earlier extractions) wrote to a process-global
+   registry, the result of extracting x is the same after ANY two histories, whatever the lookup function is
+   (premise for the code: C06/InstGlobal.v, no write to standard-library global state is inventoried) *)
+Theorem C06_history_independent :
+  forall (R : Type) (f : registry -> str -> R) (h1 h2 : list effect) (g : registry) (x : str),
+    forallb writes_nothing h1 = true -> forallb writes_nothing h2 = true ->
+    extract_after f h1 g x = extract_after f h2 g x.
+Proof. intros R f h1 h2 g x. exact (history_independent f h1 h2 g x). Qed.
+Print Assumptions C06_history_independent.
+
+(* ... and one write is enough to make the result depend on the history (the premise is not vacuous) *)
+Theorem C06_history_dependent_refuted :
+  exists (hist : list effect) (g : registry) (x : str),
+    extract_after lookup_ct hist g x <> extract_after lookup_ct [] g x.
+Proof. exact history_dependent. Qed.
+Print Assumptions C06_history_dependent_refuted.
